@@ -12,6 +12,8 @@ pub enum Event {
     BeforeLock,
     AfterLock,
     AfterUnlock,
+    /// a `try_lock` attempt, which (unlike `lock`) never waits for the holder
+    BeforeTryLock,
 }
 
 type Callback = Arc<dyn Fn(Event) + Send + Sync>;
@@ -50,7 +52,7 @@ impl<T> Mutex<T> {
 
     pub fn try_lock(&self) -> std::sync::TryLockResult<MutexGuard<'_, T>> {
         use std::sync::TryLockError;
-        report(Event::BeforeLock);
+        report(Event::BeforeTryLock);
         match self.0.try_lock() {
             Ok(g) => {
                 report(Event::AfterLock);
